@@ -123,7 +123,7 @@ Section C11.
     /\ inv11 (fst (do_multi_remove P c s ks [])) (fold_left (fun r k => rset r k None) ks r).
   Proof.
     intros HI. destruct (do_multi_remove P c s ks []) as [s' l] eqn:E. cbn [fst snd].
-    destruct (do_multi_remove_spec P c Hn ks s [] s' l E) as [D [dcc [[H _] [Hinv [Hks [-> Hgone]]]]]].
+    destruct (do_multi_remove_spec P c Hn ks s [] s' l E) as [D [dcc [[H _] [_ [Hinv [Hks [-> Hgone]]]]]]].
     split.
     - intros k v Hi. cbn [rev app] in Hi. apply in_map_iff in Hi. destruct Hi as [d [Hd Hi]]. inversion Hd; subst.
       unfold inval_of in Hinv. rewrite Forall_forall in Hks, Hinv. split; [apply Hks; exact Hi|].
